@@ -7,13 +7,13 @@ import glob
 import logging
 import os
 from typing import Optional
-from warnings import warn
 
 import numpy as np
 import torch
 
 from .base import FlowModel
-from .utils import update_flow_config
+from . import config as default_config
+from .utils import update_config, update_flow_config
 
 from ..flows import configure_model
 
@@ -212,11 +212,12 @@ class ImportanceFlowModel(FlowModel):
         weights_path: Optional[str] = None,
     ) -> None:
         """Resume the model"""
-        if "model_config" in flow_config:
-            warn(
-                "Resuming with old style flow config is not supported",
-                RuntimeWarning,
-            )
+        if "model_config" in flow_config or set(flow_config).intersection(
+            default_config.training.asdict()
+        ):
+            # Old-style config, convert it as when the model was created.
+            # The training config from the checkpoint is kept.
+            flow_config, _ = update_config(flow_config)
         self.flow_config = update_flow_config(flow_config)
         if weights_path is None:
             logger.debug(
